@@ -208,6 +208,7 @@ PROPS = {
     },
     "C12": {
         "level": "exploration",
+        "adjuncts": [("miri", "c12", 48)],
         "exhaustive": False,
         "technique": "runtime monitoring with a deterministic interleaving controller: threads parked "
                      "at spec_enter / spec_updated / spec_exit, all merge orders of the two internal "
@@ -378,6 +379,7 @@ PROPS = {
     },
     "C03": {
         "level": "exploration",
+        "adjuncts": [("miri", "c03", 48), ("tsan", ["c03", "c12"], 6)],
         "technique": "runtime monitoring: offline exactly-once / intactness / per-thread-order "
                      "checker over unique-id records logged by 2-8 real threads (files through "
                      "hundreds of rotations, captured stdout/stderr of children), seeded scheduling "
@@ -401,6 +403,7 @@ PROPS = {
     },
     "C04": {
         "level": "exploration",
+        "adjuncts": [("miri", "c04", 32)],
         "technique": "runtime monitoring: read-immediately-after-return presence/order oracle over "
                      "unique-id records for flush / shutdown / last-drop / clone-drop-then-continue, "
                      "async writer thread slowed at async_recv, a persisting-on-flush writer, and "
